@@ -34,34 +34,90 @@ def rule_long_order(rep, rule="C-order-long"):
 
 
 def rule_one_dict(rep, rule="X-one-dict"):
-    """getTextgridAsStr prepares one dictionary and every format branch serialises that same object."""
+    """getTextgridAsStr interpreted once per format with its callees abstracted to recorders: the dictionary is
+    prepared exactly once, with the caller's options passed through unchanged, and each format serialises that one
+    prepared object (plain json: its down-converted form) through the matching emitter; JSON text is produced with
+    ensure_ascii=False."""
+    from ..absint import DictVal, Interp, Lin, PyRaise, State
+    from ..index import Undecided
+    from ..tables import default_overrides
+
     idx = common.ctx()
     fn = idx.get("utilities.textgrid_io:getTextgridAsStr")
-    fmts = idx.cls("TextgridFormats").consts.get("validOptions")
-    chain = [s for s in fn.node.body if isinstance(s, ast.If)]
-    seen = []
-    ok_branches = True
-    node = chain[0] if chain else None
-    has_else = False
-    while node is not None:
-        t = node.test
-        v = idx.const_value(fn.module, t.comparators[0]) if isinstance(t, ast.Compare) else None
-        seen.append(v)
-        calls = [n for n in ast.walk(ast.Module(body=node.body, type_ignores=[])) if isinstance(n, ast.Call)]
-        uses_tg = any(isinstance(a, ast.Name) and a.id == "tg" for c in calls for a in c.args)
-        ok_branches = ok_branches and uses_tg
-        if len(node.orelse) == 1 and isinstance(node.orelse[0], ast.If):
-            node = node.orelse[0]
+    rep.functions.add(fn.qual)
+    fmts = list(idx.cls("TextgridFormats").consts.get("validOptions") or [])
+    if sorted(fmts) != ["json", "long_textgrid", "short_textgrid", "textgrid_json"]:
+        rep.check(False, rule, "TextgridFormats.validOptions", str(fmts), bad="the valid formats are no longer the four documented ones")
+        return
+    st = State([("0", Lin.num(0))], [0])
+    want = {"long_textgrid": ("long", "P"), "short_textgrid": ("short", "P"), "json": ("json", "D"), "textgrid_json": ("json", "P")}
+    for fmt in fmts:
+        tg0, P, D = DictVal(), DictVal(), DictVal()
+        lo, hi, L = Lin.var("lo"), Lin.var("hi"), Lin.var("L")
+        log = []
+
+        def name(v):
+            return "P" if v is P else "D" if v is D else "tg" if v is tg0 else repr(v)
+
+        def prep(I, args, kwargs):
+            log.append(("prep", list(args), dict(kwargs)))
+            return P
+
+        def down(I, args, kwargs):
+            log.append(("down", name(args[0])))
+            return D
+
+        def ser(kind):
+            def f(I, args, kwargs):
+                log.append((kind, name(args[0])))
+                return "<%s text>" % kind
+            return f
+
+        def dumps(I, args, kwargs):
+            log.append(("json", name(args[0]), kwargs.get("ensure_ascii")))
+            return "<json text>"
+        ov = dict(default_overrides())
+        ov.update({"textgrid_io._prepTgForSaving": prep, "textgrid_io._downconvertDictionaryForJson": down,
+                   "textgrid_io._tgToLongTextForm": ser("long"), "textgrid_io._tgToShortTextForm": ser("short")})
+        I = Interp(idx, st, overrides=ov)
+        I.builtin_overrides = {"json.dumps": dumps}
+        try:
+            out = I.call_function(fn, [tg0, fmt, True, lo, hi, L], {})
+        except PyRaise as e:
+            rep.refuted(rule, fn.short, "format %s" % fmt, "raises %s for a valid format" % e.name, loc=fn.loc)
+            continue
+        except Undecided as e:
+            rep.undecided(rule, fn.short, "format %s" % fmt, str(e))
+            continue
+        problems = []
+        preps = [x for x in log if x[0] == "prep"]
+        if len(preps) != 1:
+            problems.append("the dictionary is prepared %d times" % len(preps))
         else:
-            has_else = bool(node.orelse)
-            node = None
-    rep.check(sorted(x for x in seen if x) == sorted(fmts) and not has_else, rule, fn.short, "format dispatch", ok="one branch per valid format %s, no catch-all" % sorted(fmts), bad="format dispatch %s does not cover validOptions %s exactly" % (seen, fmts))
-    rep.check(ok_branches, rule, fn.short, "branches serialise tg", ok="every branch serialises the one prepared dictionary", bad="a format branch serialises something other than the prepared dictionary")
-    jb = [n for n in ast.walk(fn.node) if isinstance(n, ast.Call) and norm(n.func) == "_tgToJson"]
-    shapes = sorted(norm(c.args[0]) for c in jb)
-    rep.check(shapes == ["_downconvertDictionaryForJson(tg)", "tg"], rule, fn.short, "json branches", ok="json = _tgToJson(down(tg)); textgrid_json = _tgToJson(tg)", bad="json branches serialise %s" % shapes)
-    js = idx.get("utilities.textgrid_io:_tgToJson")
-    rep.check(any(isinstance(n, ast.Call) and norm(n.func) == "json.dumps" and any(k.arg == "ensure_ascii" and norm(k.value) == "False" for k in n.keywords) for n in ast.walk(js.node)), rule, js.short, "json.dumps(..., ensure_ascii=False)", ok="labels are written as themselves (UTF-8), JSON escapes quotes", bad="_tgToJson no longer uses json.dumps(ensure_ascii=False)")
+            a, kw = preps[0][1], preps[0][2]
+            par = ["tg", "includeBlankSpaces", "minTimestamp", "maxTimestamp", "minimumIntervalLength"]
+            got = dict(zip(par, a))
+            got.update(kw)
+            exp = {"tg": tg0, "includeBlankSpaces": True, "minTimestamp": lo, "maxTimestamp": hi, "minimumIntervalLength": L}
+            for k, v in exp.items():
+                g = got.get(k)
+                same = (g is v) or (isinstance(v, Lin) and isinstance(g, Lin) and g.same(v)) or (v is True and g is True)
+                if not same:
+                    problems.append("_prepTgForSaving receives %s=%r instead of the caller's %s" % (k, g, k))
+            if log[0][0] != "prep":
+                problems.append("something is serialised before the dictionary is prepared")
+        kind, obj = want[fmt]
+        sers = [x for x in log if x[0] in ("long", "short", "json")]
+        if len(sers) != 1 or sers[0][0] != kind or sers[0][1] != obj:
+            problems.append("serialised as %s, expected %s(%s)" % (sers, kind, "prepared dictionary" if obj == "P" else "down-converted prepared dictionary"))
+        elif kind == "json" and sers[0][2] is not False:
+            problems.append("json.dumps is not called with ensure_ascii=False: labels would be written as \\u escapes")
+        if obj == "D" and ("down", "P") not in log:
+            problems.append("the plain-json form is not derived from the prepared dictionary")
+        if not problems and out != "<%s text>" % kind:
+            problems.append("the function returns %r, not the serialiser's text" % (out,))
+        rep.check(not problems, rule, fn.short, "format %s" % fmt, ok="prepared once with the caller's options, then %s(%s)" % (kind, "prepared" if obj == "P" else "down(prepared)"),
+                  bad="; ".join(problems), loc=fn.loc)
     rep.floor(rule, 4)
 
 
